@@ -62,6 +62,8 @@ type c16Extra struct {
 	ForProp    string `json:"for_prop,omitempty"`    // ... to the upgrade sub-profile of this property (C02, C10, C13)
 	// ZeroExpAmount: the legacy minter parameters carry their exponential periods with amount 0 (valid in the previous format)
 	ZeroExpAmount bool `json:"zero_exp_amount,omitempty"`
+	// UpperOwnerKey: the old store keeps one owner's pools under the upper-case spelling of the address
+	UpperOwnerKey bool `json:"upper_owner_key,omitempty"`
 }
 
 const uc4ePerToken = 1_000_000
@@ -255,7 +257,7 @@ func c16Trace(seed uint64) *kernel.Trace {
 	if mp, err := GenMinterParams(r.Fork(3), spec.GenesisTime, BondDenom, MinterGenCfg{MaxPeriods: 4, MaxAmountExp: 20, MaxStepsHint: 100, Horizon: 24 * time.Hour, AllowNone: true}); err == nil {
 		spec.Minter = MinterGenesisJSON(mp, spec.GenesisTime)
 	}
-	tr := &kernel.Trace{Profile: "C16", Seed: seed, Spec: *spec, Extra: mustJSON(c16Extra{Variant: variant, ZeroExpAmount: r.Intn(6) == 0})}
+	tr := &kernel.Trace{Profile: "C16", Seed: seed, Spec: *spec, Extra: mustJSON(c16Extra{Variant: variant, ZeroExpAmount: r.Intn(6) == 0, UpperOwnerKey: r.Intn(6) == 1})}
 	for i := 0; i < 5; i++ {
 		b := kernel.Block{DtNs: int64(6 * time.Second)}
 		if i >= 2 {
@@ -321,7 +323,7 @@ func typeOr(vg vtypes.GenesisState, want string) string {
 }
 
 // toLegacyLayout rewrites the custom modules' stores into the v1.1.0 layout inside the current block.
-func toLegacyLayout(c *kernel.Chain, zeroExpAmount bool) (legacyMinter mintertypes.LegacyParams, legacyDist disttypes.Params, err error) {
+func toLegacyLayout(c *kernel.Chain, zeroExpAmount bool, upperOwnerKey bool) (legacyMinter mintertypes.LegacyParams, legacyDist disttypes.Params, err error) {
 	ctx := c.Ctx()
 	cdc := kernel.Enc().Marshaler
 	amino := c.App.LegacyAmino()
@@ -329,8 +331,14 @@ func toLegacyLayout(c *kernel.Chain, zeroExpAmount bool) (legacyMinter mintertyp
 	// pools: new records -> v2 records (same prefix, keyed by address)
 	pools := c.App.CfevestingKeeper.GetAllAccountVestingPools(ctx)
 	ps := prefix.NewStore(vstore, vv2.AccountVestingPoolsKeyPrefix)
-	for _, avp := range pools {
+	for i, avp := range pools {
 		old := vv2.AccountVestingPools{Address: avp.Owner}
+		if upperOwnerKey && i == 0 && avp.Owner != v120.ValidatorsVestingPoolOwner {
+			// the old store knows this owner under the upper-case spelling of the address (a genesis file of that time)
+			ps.Delete([]byte(avp.Owner))
+			old.Address = strings.ToUpper(avp.Owner)
+			avp.Owner = old.Address
+		}
 		for _, p := range avp.VestingPools {
 			old.VestingPools = append(old.VestingPools, &vv2.VestingPool{Name: p.Name, VestingType: p.VestingType, LockStart: p.LockStart, LockEnd: p.LockEnd, InitiallyLocked: p.InitiallyLocked, Withdrawn: p.Withdrawn, Sent: p.Sent})
 		}
@@ -454,7 +462,7 @@ func c16Replay(tr *kernel.Trace) *Outcome {
 			for _, vt := range r.Chain.App.CfevestingKeeper.GetAllVestingTypes(r.Chain.Ctx()).VestingTypes {
 				s0.vtypes[vt.Name] = true
 			}
-			legacyMinter, legacyDist, prepErr = toLegacyLayout(r.Chain, extra.ZeroExpAmount)
+			legacyMinter, legacyDist, prepErr = toLegacyLayout(r.Chain, extra.ZeroExpAmount, extra.UpperOwnerKey)
 			if prepErr == nil {
 				prepErr = r.Chain.App.UpgradeKeeper.ScheduleUpgrade(r.Chain.Ctx(), upgradetypes.Plan{Name: v120.UpgradeName, Height: r.Chain.Header.Height + 1})
 			}
